@@ -284,66 +284,6 @@ func formatInto(sb *strings.Builder, format string, args []string) (int, error) 
 		}
 		c := format[i]
 		switch {
-		case c == '\\': // escaped
-			i++
-			if i >= len(format) {
-				sb.WriteByte('\\')
-				break
-			}
-			switch c = format[i]; c {
-			case 'a': // bell
-				sb.WriteByte('\a')
-			case 'b': // backspace
-				sb.WriteByte('\b')
-			case 'e', 'E': // escape
-				sb.WriteByte('\x1b')
-			case 'f': // form feed
-				sb.WriteByte('\f')
-			case 'n': // new line
-				sb.WriteByte('\n')
-			case 'r': // carriage return
-				sb.WriteByte('\r')
-			case 't': // horizontal tab
-				sb.WriteByte('\t')
-			case 'v': // vertical tab
-				sb.WriteByte('\v')
-			case '\\', '\'', '"', '?': // just the character
-				sb.WriteByte(c)
-			case '0', '1', '2', '3', '4', '5', '6', '7':
-				digits := readDigits(3, false)
-				// three octal digits can exceed 8 bits; keep the low byte
-				n, _ := strconv.ParseUint(digits, 8, 16)
-				sb.WriteByte(byte(n))
-			case 'x', 'u', 'U':
-				i++
-				max := 2
-				switch c {
-				case 'u':
-					max = 4
-				case 'U':
-					max = 8
-				}
-				digits := readDigits(max, true)
-				if len(digits) > 0 {
-					// can't error
-					n, _ := strconv.ParseUint(digits, 16, 32)
-					if c == 'x' {
-						// always as a single byte
-						sb.WriteByte(byte(n))
-					} else {
-						sb.WriteRune(rune(n))
-					}
-					break
-				}
-				fallthrough
-			default: // no escape sequence
-				sb.WriteByte('\\')
-				if c == '%' {
-					i-- // the backslash is literal; the directive still applies
-				} else {
-					sb.WriteByte(c)
-				}
-			}
 		case len(fmts) > 0:
 			switch c {
 			case '%':
@@ -409,6 +349,66 @@ func formatInto(sb *strings.Builder, format string, args []string) (int, error) 
 				fmts = nil
 			default:
 				return 0, fmt.Errorf("invalid format char: %c", c)
+			}
+		case c == '\\': // escaped
+			i++
+			if i >= len(format) {
+				sb.WriteByte('\\')
+				break
+			}
+			switch c = format[i]; c {
+			case 'a': // bell
+				sb.WriteByte('\a')
+			case 'b': // backspace
+				sb.WriteByte('\b')
+			case 'e', 'E': // escape
+				sb.WriteByte('\x1b')
+			case 'f': // form feed
+				sb.WriteByte('\f')
+			case 'n': // new line
+				sb.WriteByte('\n')
+			case 'r': // carriage return
+				sb.WriteByte('\r')
+			case 't': // horizontal tab
+				sb.WriteByte('\t')
+			case 'v': // vertical tab
+				sb.WriteByte('\v')
+			case '\\', '\'', '"', '?': // just the character
+				sb.WriteByte(c)
+			case '0', '1', '2', '3', '4', '5', '6', '7':
+				digits := readDigits(3, false)
+				// three octal digits can exceed 8 bits; keep the low byte
+				n, _ := strconv.ParseUint(digits, 8, 16)
+				sb.WriteByte(byte(n))
+			case 'x', 'u', 'U':
+				i++
+				max := 2
+				switch c {
+				case 'u':
+					max = 4
+				case 'U':
+					max = 8
+				}
+				digits := readDigits(max, true)
+				if len(digits) > 0 {
+					// can't error
+					n, _ := strconv.ParseUint(digits, 16, 32)
+					if c == 'x' {
+						// always as a single byte
+						sb.WriteByte(byte(n))
+					} else {
+						sb.WriteRune(rune(n))
+					}
+					break
+				}
+				fallthrough
+			default: // no escape sequence
+				sb.WriteByte('\\')
+				if c == '%' {
+					i-- // the backslash is literal; the directive still applies
+				} else {
+					sb.WriteByte(c)
+				}
 			}
 		case args != nil && c == '%':
 			// if args == nil, we are not doing format
